@@ -172,7 +172,7 @@ Proof.
   induction p as [|s p IH]; intros v t t' q H Hpr.
   - unfold prefix_related in Hpr. simpl in Hpr. discriminate.
   - destruct q as [|s' q].
-    + unfold prefix_related in Hpr. simpl in Hpr. rewrite orb_true_r in Hpr. discriminate.
+    + unfold prefix_related in Hpr. simpl in Hpr. try rewrite orb_true_r in Hpr. discriminate.
     + simpl in H.
       destruct (child s t) as [c|] eqn:Ec; [|discriminate].
       destruct (jput p v c) as [c'|] eqn:Ep; [|discriminate].
@@ -203,176 +203,40 @@ Qed.
 Lemma blank_frame : forall p v t t', jput p v t = Some t' -> blank p t' = blank p t.
 Proof. intros. unfold blank. eapply put_put; eauto. Qed.
 
-(* ---- strings that survive the text round trip ------------------------------- *)
-Lemma str_clean_parts : forall s,
-  str_clean s = true -> str_reject s = false /\ has_nel s = false.
-Proof.
-  intros s H. unfold str_clean in H. apply andb_true_iff in H as [A B].
-  apply negb_true_iff in A, B. now split.
-Qed.
-
-Lemma str_clean_key : forall s, str_clean s = true -> key_reject s = false.
-Proof.
-  intros s H. apply str_clean_parts in H as [A B]. unfold key_reject. now rewrite A, B.
-Qed.
-
-Lemma clean_not_bad : forall t, tree_clean t = true -> tree_bad t = false.
-Proof.
-  induction t as [| | | | s | l IH | kv IH] using tv_ind2; intros H; simpl in *; try reflexivity.
-  - now apply str_clean_parts in H.
-  - induction l as [|x r IHr]; simpl in *; [reflexivity|].
-    apply andb_true_iff in H as [Hx Hr]. inversion IH; subst.
-    rewrite (H1 Hx). simpl. now apply IHr.
-  - induction kv as [|[k x] r IHr]; simpl in *; [reflexivity|].
-    apply andb_true_iff in H as [Hx Hr]. apply andb_true_iff in Hx as [Hk Hx].
-    inversion IH; subst. simpl in H1.
-    rewrite (str_clean_key _ Hk), (H1 Hx). simpl. now apply IHr.
-Qed.
-
-Lemma clean_fix : forall t, tree_clean t = true -> tree_fix t = t.
-Proof.
-  induction t as [| | | | s | l IH | kv IH] using tv_ind2; intros H; simpl in *; try reflexivity.
-  - apply str_clean_parts in H as [_ B]. unfold nel_fix. now rewrite B.
-  - f_equal. induction l as [|x r IHr]; simpl in *; [reflexivity|].
-    apply andb_true_iff in H as [Hx Hr]. inversion IH; subst.
-    rewrite (H1 Hx). f_equal. now apply IHr.
-  - f_equal. induction kv as [|[k x] r IHr]; simpl in *; [reflexivity|].
-    apply andb_true_iff in H as [Hx Hr]. apply andb_true_iff in Hx as [Hk Hx].
-    inversion IH; subst. simpl in H1.
-    rewrite (H1 Hx). f_equal. now apply IHr.
-Qed.
-
-Lemma codec_clean : forall t, tree_clean t = true -> codec_rt t = Some t.
-Proof.
-  intros t H. unfold codec_rt. now rewrite (clean_not_bad t H), (clean_fix t H).
-Qed.
-
-Lemma clean_lookup : forall k kv x,
-  tree_clean (TObj kv) = true -> lookup k kv = Some x -> tree_clean x = true.
-Proof.
-  intros k kv x. induction kv as [|[k' y] r IH]; simpl; intros H L; [discriminate|].
-  apply andb_true_iff in H as [Hy Hr]. apply andb_true_iff in Hy as [_ Hy].
-  destruct (String.eqb k k'); [inversion L; now subst | now apply IH].
-Qed.
-
-Lemma clean_nth : forall n l x,
-  tree_clean (TArr l) = true -> nth_error l n = Some x -> tree_clean x = true.
-Proof.
-  induction n as [|n IH]; intros l x H L; destruct l as [|y r]; simpl in *; try discriminate;
-    apply andb_true_iff in H as [Hy Hr].
-  - inversion L; now subst.
-  - eapply IH; eauto.
-Qed.
-
-Lemma clean_child : forall s t c,
-  tree_clean t = true -> child s t = Some c -> tree_clean c = true.
-Proof.
-  intros [k|n] t c H L; destruct t; simpl in L; try discriminate.
-  - eapply clean_lookup; eauto.
-  - eapply clean_nth; eauto.
-Qed.
-
-Lemma clean_update : forall k c kv,
-  tree_clean (TObj kv) = true -> tree_clean c = true -> tree_clean (TObj (update k c kv)) = true.
-Proof.
-  intros k c kv. induction kv as [|[k' y] r IH]; simpl; intros H Hc; [reflexivity|].
-  apply andb_true_iff in H as [Hy Hr]. apply andb_true_iff in Hy as [Hk Hy].
-  destruct (String.eqb k k'); simpl.
-  - now rewrite Hk, Hc, Hr.
-  - rewrite Hk, Hy. simpl. now apply IH.
-Qed.
-
-Lemma clean_list_set : forall n c l,
-  tree_clean (TArr l) = true -> tree_clean c = true -> tree_clean (TArr (list_set n c l)) = true.
-Proof.
-  induction n as [|n IH]; intros c l H Hc; destruct l as [|y r]; simpl in *; try reflexivity;
-    apply andb_true_iff in H as [Hy Hr].
-  - now rewrite Hc, Hr.
-  - rewrite Hy. simpl. now apply IH.
-Qed.
-
-Lemma clean_put_child : forall s c t,
-  tree_clean t = true -> tree_clean c = true -> tree_clean (put_child s c t) = true.
-Proof.
-  intros [k|n] c t H Hc; destruct t; simpl; try exact H.
-  - now apply clean_update.
-  - now apply clean_list_set.
-Qed.
-
-Lemma clean_jput : forall p v t t',
-  tree_clean v = true -> tree_clean t = true -> jput p v t = Some t' -> tree_clean t' = true.
-Proof.
-  induction p as [|s p IH]; intros v t t' Hv Ht H; simpl in *.
-  - inversion H; now subst.
-  - destruct (child s t) as [c|] eqn:Ec; [|discriminate].
-    destruct (jput p v c) as [c'|] eqn:Ep; [|discriminate].
-    inversion H; subst t'.
-    apply clean_put_child; [exact Ht|].
-    eapply IH; eauto. eapply clean_child; eauto.
-Qed.
-
-Lemma clean_jget : forall p t x,
-  tree_clean t = true -> jget p t = [x] -> tree_clean x = true.
-Proof.
-  induction p as [|s p IH]; intros t x Ht H; simpl in *.
-  - inversion H; now subst.
-  - destruct (child s t) as [c|] eqn:Ec; [|discriminate].
-    eapply IH; eauto. eapply clean_child; eauto.
-Qed.
-
 (* ---- Get / Set --------------------------------------------------------------- *)
 Lemma jset_ok_inv : forall p v t t' n,
   jset p v t = SetOk t' n ->
   p <> [] /\
   ((n = 0 /\ t' = t /\ jput p v t = None) \/
-   (n = 1 /\ settable v = true /\ exists t1, jput p v t = Some t1 /\ codec_rt t1 = Some t')).
+   (n = 1 /\ settable v = true /\ jput p v t = Some t')).
 Proof.
   intros p v t t' n H. unfold jset in H.
   destruct p as [|s p]; [discriminate|].
   split; [discriminate|].
   destruct (jput (s :: p) v t) as [t1|] eqn:Ep.
-  - destruct (settable v) eqn:Es; simpl in H; [|discriminate].
-    destruct (codec_rt t1) as [t2|] eqn:Ec; [|discriminate].
-    inversion H; subst. right. repeat split; eauto.
+  - destruct (settable v) eqn:Es; [|discriminate].
+    inversion H; subst. right. now repeat split.
   - inversion H; subst. left. now repeat split.
 Qed.
 
-Lemma jget_c_clean : forall p t, tree_clean t = true -> jget_c p t = GetOk (jget p t).
+Lemma jset_one_put : forall p v t t', jset p v t = SetOk t' 1 -> jput p v t = Some t'.
 Proof.
-  intros p t Ht. unfold jget_c.
-  assert (L := jget_le_one p t).
-  destruct (jget p t) as [|x [|y r]] eqn:E; simpl.
-  - reflexivity.
-  - now rewrite (codec_clean x (clean_jget p t x Ht E)).
-  - simpl in L. lia.
+  intros p v t t' H. apply jset_ok_inv in H as [_ [[E _]|[_ [_ Ep]]]]; [discriminate | exact Ep].
 Qed.
 
-Lemma jset_clean : forall p v t t',
-  tree_clean v = true -> tree_clean t = true -> jset p v t = SetOk t' 1 ->
-  jput p v t = Some t' /\ tree_clean t' = true.
-Proof.
-  intros p v t t' Hv Ht H. apply jset_ok_inv in H as [_ [[E _]|[_ [_ [t1 [Ep Ec]]]]]]; [discriminate|].
-  assert (C := clean_jput p v t t1 Hv Ht Ep).
-  rewrite (codec_clean t1 C) in Ec. inversion Ec; subst. now split.
-Qed.
-
-Lemma get_set_partial : forall p v t t',
-  tree_clean v = true -> tree_clean t = true ->
+Lemma get_set : forall p v t t',
   jset p v t = SetOk t' 1 -> jget_c p t' = GetOk [v].
 Proof.
-  intros p v t t' Hv Ht H. destruct (jset_clean p v t t' Hv Ht H) as [Ep C].
-  rewrite (jget_c_clean p t' C). f_equal. eapply get_put; eauto.
+  intros p v t t' H. unfold jget_c. f_equal. eapply get_put. eapply jset_one_put; eauto.
 Qed.
 
-Lemma frame_partial : forall p v t t',
-  tree_clean v = true -> tree_clean t = true ->
+Lemma frame : forall p v t t',
   jset p v t = SetOk t' 1 ->
   (forall q, prefix_related p q = false -> jget_c q t' = jget_c q t) /\
   blank p t' = blank p t.
 Proof.
-  intros p v t t' Hv Ht H. destruct (jset_clean p v t t' Hv Ht H) as [Ep C]. split.
-  - intros q Hq. rewrite (jget_c_clean q t' C), (jget_c_clean q t Ht). f_equal.
-    eapply put_frame; eauto.
+  intros p v t t' H. apply jset_one_put in H. split.
+  - intros q Hq. unfold jget_c. f_equal. eapply put_frame; eauto.
   - eapply blank_frame; eauto.
 Qed.
 
@@ -380,20 +244,29 @@ Lemma set_requires_one : forall p v t t' n,
   jset p v t = SetOk t' n ->
   n = List.length (jget p t) /\ n <= 1 /\ (n = 0 -> t' = t).
 Proof.
-  intros p v t t' n H. apply jset_ok_inv in H as [_ [[E [Et Ep]]|[E [_ [t1 [Ep _]]]]]].
+  intros p v t t' n H. apply jset_ok_inv in H as [_ [[E [Et Ep]]|[E [_ Ep]]]].
   - subst. apply jput_none_iff in Ep. rewrite Ep. simpl. repeat split; lia.
-  - subst. destruct (jput_some_one p v t t1 Ep) as [x Ex]. rewrite Ex. simpl.
+  - subst. destruct (jput_some_one p v t t' Ep) as [x Ex]. rewrite Ex. simpl.
     repeat split; try lia.
 Qed.
 
-Lemma set_succeeds_partial : forall p v t x,
-  p <> [] -> tree_clean v = true -> tree_clean t = true -> settable v = true ->
-  jget p t = [x] -> exists t', jset p v t = SetOk t' 1.
+Lemma set_succeeds : forall p v t x,
+  p <> [] -> settable v = true -> jget p t = [x] -> exists t', jset p v t = SetOk t' 1.
 Proof.
-  intros p v t x Hp Hv Ht Hs Hg. unfold jset.
+  intros p v t x Hp Hs Hg. unfold jset.
   destruct p as [|s p]; [congruence|].
   destruct (jput (s :: p) v t) as [t1|] eqn:Ep.
-  - rewrite Hs. simpl. rewrite (codec_clean t1 (clean_jput _ v t t1 Hv Ht Ep)). now exists t1.
+  - rewrite Hs. now exists t1.
+  - apply jput_none_iff in Ep. congruence.
+Qed.
+
+Lemma set_unsupported : forall p v t x,
+  p <> [] -> settable v = false -> jget p t = [x] -> jset p v t = SetErr JEUnsupported.
+Proof.
+  intros p v t x Hp Hs Hg. unfold jset.
+  destruct p as [|s p]; [congruence|].
+  destruct (jput (s :: p) v t) as [t1|] eqn:Ep.
+  - now rewrite Hs.
   - apply jput_none_iff in Ep. congruence.
 Qed.
 
